@@ -740,7 +740,7 @@ func (vc *VC) typeAssume(term string, t types.Type, st *State) string {
 			}
 		}
 	case *types.Slice:
-		wf := fmt.Sprintf("(and (>= (s.len %s) 0) (>= (s.cap %s) (s.len %s)) (>= (s.off %s) 0) (=> (= (s.arr %s) 0) (= (s.cap %s) 0)))", term, term, term, term, term, term)
+		wf := fmt.Sprintf("(and (>= (s.len %s) 0) (>= (s.cap %s) (s.len %s)) (<= (s.cap %s) 9223372036854775807) (>= (s.off %s) 0) (=> (= (s.arr %s) 0) (= (s.cap %s) 0)))", term, term, term, term, term, term, term)
 		if st != nil {
 			wf = and(wf, fmt.Sprintf("(< (rootref (s.arr %s)) %s)", term, vc.stGet0(st, "$alloc")))
 		}
